@@ -151,6 +151,9 @@ PLAN["C01"]["fidelity"] = FID_TREES
 PLAN["C07"]["fidelity"] = FID_TREES
 PLAN["C05"]["fidelity"] = FID_RING
 PLAN["C06"]["fidelity"] = FID_HEAP
+PLAN["C05"]["proofs"] = [dict(module="RingInv.tla", what="for every capacity >= 1: start, end in range, size = calculateSize(start, end, full), "
+                              "full <=> size = capacity is an inductive invariant of the ring's index arithmetic (RingIdx, which MCRing shows the ring model refines)")]
+PLAN["C15"]["proofs"] = PLAN["C05"]["proofs"]
 
 # ---- texts for MANIFEST.json -----------------------------------------------------------------------
 _MC = ("TLC explores the bounded TLA+ models of the property's state machine exhaustively, and every (reachable concrete "
